@@ -114,11 +114,45 @@ def run(ctx):
             why = "race detector report or crash" if not r.startswith("ok") else "output differs"
             report("applyMatrix %s under -race: %s; impl=%s model=%s; %s" % (variant, why, r[:200], m, line),
                    {"apply": [list(a)], "impl": r, "model": m, "env": "race", "class": {"op": "apply-race", "variant": variant}})
+    # 3. consequently Create output and Repair results are identical for every value of the goroutine option
+    from . import p2lib as L
+    from . import par2common as P
+    rng = ctx.rng
+    e2e = 0
+    for S_, nbytes in ((4, 70), (64, 64 * 5 + 33), (2000, 16 * 2000 + 123)):
+        files = {"a.bin": L.gen_content(rng, "random", nbytes), "b.bin": L.gen_content(rng, "random", max(1, nbytes // 3))}
+        sets = [P.PSet(dict(files), S_, 5, g=g) for g in (1, 2, 5, 32)]
+        for s_ in sets:
+            s_.bystanders = {}
+        cl = [s_.create_line("mem") for s_ in sets]
+        ci = ctx.run_lines(vh, cl)
+        outs = [L.parse_result(x) for x in ci]
+        for s_, line, o in zip(sets, cl, outs):
+            e2e += 1
+            ctx.count("create-g|%d|%d" % (S_, s_.g), s_.g > 1)
+            if o["res"] != "ok" or o["changed"] != outs[0]["changed"]:
+                report("Create output with %d goroutines differs from the single-goroutine output (slice size %d)" % (s_.g, S_),
+                       {"lines": [cl[0], line], "class": {"op": "create-goroutines"}})
+        if outs[0]["res"] != "ok":
+            continue
+        base = L.apply_changed(sets[0].input_fs(), outs[0]["changed"])
+        dmg = dict(base)
+        d = dmg[sets[0].paths["a.bin"]]
+        dmg[sets[0].paths["a.bin"]] = d[:S_] + bytes([d[S_] ^ 1]) + d[S_ + 1:] if len(d) > S_ else d[:-1]
+        del dmg[sets[0].paths["b.bin"]]
+        rl = [L.line_repair("p2", "mem", sets[0].index, g % 2 == 0, g, dmg) for g in (1, 2, 5, 32)]
+        ri = [L.parse_result(x) for x in ctx.run_lines(vh, rl)]
+        for g, line, o in zip((1, 2, 5, 32), rl, ri):
+            e2e += 1
+            ctx.count("repair-g|%d|%d" % (S_, g), g > 1)
+            if o["res"] != ri[0]["res"] or o["changed"] != ri[0]["changed"]:
+                report("Repair result with %d goroutines differs from the single-goroutine result (slice size %d): %s vs %s" % (g, S_, o["res"], ri[0]["res"]),
+                       {"lines": [rl[0], line], "class": {"op": "repair-goroutines"}})
     return ctx.finish(
         "proof",
         rule="calculateParallelParams: exhaustive grid total 0..600 x g 1..64 for (16,16) and (1,1) (thorough 0..2500 x 1..130) plus totals around 2^16, 2^17, 2^20, 2^31 with g up to total; applyMatrix Single/ParallelData/ParallelOut on shard lengths 0..35, 63..65, 127, 255, 256, 2047, 32769 words x g in {1..9,16,17,64,1000} x GOMAXPROCS {1,2,16}, and under the race detector (GOMAXPROCS=8); outputs start as garbage between canaries; non-trivial = at least two workers after clamping",
         exhaustive=False,
         extra={"input_distribution": dist, "params_cases": len(params), "params_multiworker": multi,
-               "apply_cases": len(apply), "race_detector_cases": len(race_lines),
+               "apply_cases": len(apply), "race_detector_cases": len(race_lines), "create_repair_goroutine_cases": e2e,
                "runtime_evidence_only": "data-race freedom of the Go implementation (race detector); the theorems prove footprint disjointness and schedule independence of the small-step model",
                "compared": "(per, workers) vs par_params; digest of all output shards vs apply_matrix of the coder model (which has no goroutine parameter); inputs and canaries re-read"})
